@@ -5,6 +5,21 @@ from semantiva.examples.test_utils import (FloatDataType, FloatDataCollection, F
                                            FloatAddOperation, FloatSquareOperation, FloatBasicProbe, FloatCollectValueProbe,
                                            FloatCollectionSumOperation, FloatValueDataSource, FloatValueDataSourceWithDefault)
 
+from semantiva.examples.test_utils import FloatOperation as _FloatOperation
+
+
+class ScaleAndReport(_FloatOperation):
+    """Multiplies by a factor and reports the factor it applied under a declared context key."""
+
+    @classmethod
+    def context_keys(cls):
+        return ["applied_factor"]
+
+    def _process_logic(self, data, factor: float):
+        self._notify_context_update("applied_factor", factor)
+        return FloatDataType(data.data * factor)
+
+
 KEYS = ["factor", "addend", "k1", "k2"]
 
 
@@ -68,6 +83,10 @@ def extra_pipelines():
                    "derive": {"parameter_sweep": {"parameters": {}, "variables": {"step": {"values": [1.0, 2.0, 4.0]}}}}}
     sweep_src = {"processor": "FloatValueDataSource", "derive": {"parameter_sweep": {"parameters": {"value": "2.0 * t"}, "variables": {"t": {"values": [1.0, 2.0]}},
                                                                                    "collection": "FloatDataCollection"}}}
+    sweep_writer = {"processor": ScaleAndReport, "derive": {"parameter_sweep": {"parameters": {"factor": "t"}, "variables": {"t": {"values": [1.0, 2.0]}},
+                                                                                 "collection": "FloatDataCollection"}}}
+    plain_writer = {"processor": ScaleAndReport, "parameters": {"factor": 3.0}}
+    use_applied = {"processor": "rename:applied_factor:kept"}
     use_t = {"processor": "template:'t {t_values}':label"}
     use_step = {"processor": "template:'steps {step_values}':label"}
     use_readings = {"processor": "rename:readings:kept"}
@@ -79,6 +98,10 @@ def extra_pipelines():
         (["sweep-src", "template t_values"], [sweep_src, use_t]),
         (["src(v)", "template step_values"], [src, use_step]),
         (["src(v)", "sweep-probe"], [src, sweep_probe]),
+        # a swept operation that writes a context key it declares; a later node consumes that key
+        (["src(v)", "sweep-writer", "rename applied_factor"], [src, sweep_writer, use_applied]),
+        (["src(v)", "writer", "rename applied_factor"], [src, plain_writer, use_applied]),
+        (["src(v)", "sweep-writer", "template applied_factor"], [src, sweep_writer, {"processor": "template:'f {applied_factor}':label"}]),
     ]
     import copy
     return [(l, copy.deepcopy(c)) for l, c in out]
